@@ -98,6 +98,10 @@ pub struct CScript {
     /// the first output value reports which contexts `.cat` shows inside the command
     #[serde(default)]
     pub cat_probe: bool,
+    /// after its own `.append` the script feeds a list stream to the streaming `.append`,
+    /// which panics the call's worker thread (a fault after a visible side effect)
+    #[serde(default)]
+    pub panic_after_side: bool,
 }
 
 #[derive(Serialize, Deserialize, Clone, Debug, PartialEq)]
@@ -129,6 +133,9 @@ pub enum SOp {
     CasFaultTrigger { ctx: usize },
     /// a command call issued while the content store refuses writes
     CasFaultCall { name: usize, ctx: usize },
+    /// a command call during which the content of the first result cannot be stored (its place
+    /// in the content store is taken by a directory), while everything else can
+    BlockedResultCall { name: usize, ctx: usize },
     /// a crash that strikes right after the operator appended one more frame (nothing has reacted yet)
     CrashAfter { what: usize, name: usize, ctx: usize },
     Quiesce,
@@ -293,6 +300,9 @@ pub fn cmd_script(name: &str, c: &CScript) -> String {
             out.push_str(&format!("    \"side\" | .append {}.side --meta {{note: \"x\"}}\n", name));
         }
     }
+    if c.panic_after_side {
+        out.push_str(&format!("    [p q] | each {{|x| $x}} | .append {}.boom\n", name));
+    }
     let mut items: Vec<String> = c.outputs.iter().enumerate().map(|(i, r)| ret_literal(r, i).0).collect();
     if c.cat_probe {
         items.insert(0, "(.cat | each {|f| $f.context_id} | uniq | sort | str join \",\")".to_string());
@@ -344,6 +354,8 @@ struct CallRec {
     foreign_def: bool,
     /// issued while the content store refused writes
     casfault: bool,
+    /// the first result's content could not be stored (everything else could)
+    blocked_first: bool,
 }
 
 #[derive(Clone, Debug)]
@@ -780,6 +792,49 @@ impl Run {
                 r?;
                 self.w.probe("fault:cas-write-refused");
             }
+            SOp::BlockedResultCall { name, ctx } => {
+                let c = self.ctx(*ctx);
+                let n = CNAMES[name % CNAMES.len()];
+                // the first value the latest valid definition yields, if its rendering is known
+                let first: Option<String> = self.defs.iter().rev().find(|d| d.name == n && d.ctx == c && !d.cmd.invalid).and_then(|d| {
+                    if d.cmd.fail_at.is_some() {
+                        None
+                    } else if d.cmd.cat_probe {
+                        Some(serde_json::json!(c.to_string()).to_string())
+                    } else {
+                        match d.cmd.outputs.first() {
+                            Some(r @ (Ret::Str | Ret::Int | Ret::Float | Ret::Bool)) => Some(ret_literal(r, 0).1.to_string()),
+                            _ => None,
+                        }
+                    }
+                });
+                let blocked = match &first {
+                    Some(text) => {
+                        let h = ssri::Integrity::from(text.as_bytes());
+                        if self.store.cas_read_sync(&h).is_ok() {
+                            None
+                        } else {
+                            let (algo, hex) = h.to_hex();
+                            let p = self.path.join("cacache").join("content-v2").join(algo.to_string()).join(&hex[0..2]).join(&hex[2..4]).join(&hex[4..]);
+                            std::fs::create_dir_all(&p).map_err(|e| Stop::Harness(format!("block content: {}", e)))?;
+                            Some(p)
+                        }
+                    }
+                    None => None,
+                };
+                self.do_call_x(n, c, 9, false)?;
+                if blocked.is_some() {
+                    if let Some(last) = self.calls.last_mut() {
+                        last.blocked_first = true;
+                    }
+                    self.w.probe("fault:result-content-blocked");
+                }
+                let r = self.quiesce(chooser, vec![]);
+                if let Some(p) = blocked {
+                    let _ = std::fs::remove_dir(&p);
+                }
+                r?;
+            }
             SOp::CasFaultCall { name, ctx } => {
                 let c = self.ctx(*ctx);
                 let n = CNAMES[name % CNAMES.len()];
@@ -890,7 +945,7 @@ impl Run {
         let f = self.op_append(Frame::builder(format!("{}.call", n), c).meta(serde_json::json!({"arg": arg})).build())?;
         let def = self.defs.iter().rev().find(|d| d.name == n && d.ctx == c && !d.cmd.invalid).map(|d| d.id);
         let foreign_def = def.is_none() && self.defs.iter().any(|d| d.name == n && d.ctx != c && !d.cmd.invalid);
-        self.calls.push(CallRec { id: f.id, name: n.to_string(), ctx: c, def, foreign_def, casfault });
+        self.calls.push(CallRec { id: f.id, name: n.to_string(), ctx: c, def, foreign_def, casfault, blocked_first: false });
         self.w.probe(if def.is_some() { "cmd:call" } else { "cmd:call-undefined" });
         Ok(())
     }
@@ -1804,6 +1859,36 @@ impl Run {
             if !(last.topic.ends_with(".complete") || last.topic.ends_with(".error")) {
                 return violation("cmd/terminal-not-last", format!("{}: {} came after the terminal event", desc, fmt_frame(last)));
             }
+            if sides > 1 {
+                return violation("cmd/executed-twice", format!("{}: the script's .append ran {} times for one call", desc, sides));
+            }
+            if def.cmd.panic_after_side && !call.casfault {
+                // the worker thread died after the script's own .append: one side frame, one
+                // error, nothing else - and the closure ran once
+                if completes != 0 || errors != 1 || !recvs.is_empty() || sides != 1 {
+                    return violation(
+                        "cmd/terminal-count",
+                        format!("{}: its worker thread panics after the script's own .append; expected that one frame and one {}.error, found {} side, {} result, {} complete, {} error frames", desc, call.name, sides, recvs.len(), completes, errors),
+                    );
+                }
+                self.w.probe("cmd:worker-panic-checked");
+                continue;
+            }
+            if call.blocked_first {
+                // the first result could not be stored: nothing is delivered, the call ends with
+                // the error, and the closure ran once (its own .append is there exactly once)
+                if completes == 1 {
+                    return violation("cmd/error-swallowed", format!("{}: the first result could not be stored, but the call ended with {}.complete", desc, call.name));
+                }
+                if !recvs.is_empty() {
+                    return violation("cmd/output", format!("{}: {} result frames although the first result could not be stored", desc, recvs.len()));
+                }
+                if def.cmd.explicit_append && sides != 1 {
+                    return violation("cmd/explicit-append", format!("{}: the script's .append ran {} times", desc, sides));
+                }
+                self.w.probe("cmd:blocked-result-checked");
+                continue;
+            }
             if def.cmd.explicit_append && sides != 1 && errors == 0 {
                 return violation("cmd/explicit-append", format!("{}: the script's .append ran {} times", desc, sides));
             }
@@ -2083,6 +2168,7 @@ pub fn generate(seed: u64, prop: &str, thorough: bool) -> Plan {
                             invalid: rng.chance(12),
                             uses_env: true,
                             cat_probe: no > 0 && rng.chance(25),
+                            panic_after_side: false,
                         }
                     },
                 },
@@ -2101,6 +2187,9 @@ pub fn generate(seed: u64, prop: &str, thorough: bool) -> Plan {
             };
             let op = match op {
                 SOp::Call { name, ctx, .. } if prop == "C19" && rng.chance(12) => SOp::CasFaultCall { name, ctx },
+                SOp::Define { name, ctx, cmd } if prop == "C19" && !cmd.invalid && cmd.fail_at.is_none() && rng.chance(10) => {
+                    SOp::Define { name, ctx, cmd: CScript { explicit_append: true, panic_after_side: true, ..cmd } }
+                }
                 o => o,
             };
             let op = match op {
